@@ -32,7 +32,7 @@ EXPLANATION = (
     "the functions reachable from the carquet_writer_* entry points (call graph, dispatch slots resolved) "
     "every mutable static local is overwritten before it is read in each call, every mutable file-scope "
     "variable used is thread-local or a lazily built call-independent table, and nothing consults the "
-    "clock, the process or a random source. Decides these clauses, not acceptance by an independent reader "
+    "clock, the process or a random source. (9) every LogicalType member is written under the specification's union field id and its parameters parse back (write_logical_type executed per member and per parameter combination; the root probe cannot reach a union). Decides these clauses, not acceptance by an independent reader "
     "nor byte equality of two runs (allocator addresses and library codecs are outside the rule).")
 
 PT = "src/thrift/parquet_types.c"
